@@ -50,3 +50,8 @@ Qed.
 (* a query on a file whose password is wrong: exit status 0 for both, nothing but the input is touched *)
 Example c06_ex_query : c06_job (C6ActQuery C6QRequiresPassword) (Some (C6Err C6EPassword [])) false = ([C6EvOpenInput], 0).
 Proof. reflexivity. Qed.
+
+(* the input of the former finding F11, computed: string then stream of the same object, AESV2 string and RC4 stream *)
+Example c06_ex_f11 :
+  c06_decrypt_seq c06_f11_state None c06_f11_enc = map (fun l => C6LeafOk (c6l_data l) false) c06_f11_leaves.
+Proof. vm_compute. reflexivity. Qed.
